@@ -26,6 +26,7 @@ import (
 	"math/rand"
 	"strconv"
 	"strings"
+	"sync/atomic"
 	"time"
 
 	"github.com/ichiban/prolog/engine"
@@ -77,7 +78,31 @@ func boundedSize(t engine.Term, env *engine.Env, limit int) int {
 const answersTimeout = 5 * time.Second
 
 // runImpl executes one case on the real interpreter.
+// A case that does not finish within the time limit is run once more, alone in time, with four times
+// the limit (a loaded machine must not turn a healthy case into a timeout); the second outcome is the
+// one reported.  The generators only emit cases whose reference search is a few thousand steps, so a
+// confirmed timeout means the implementation does not terminate where it must: it is JUDGED (a
+// failure).  After answersMaxTimeouts confirmed timeouts the remaining cases of the run are skipped
+// (each costs 25 s), the failing inputs are already there.
+var answersTimeouts int32
+
+const answersMaxTimeouts = 12
+
 func runImpl(c answersCase) string {
+	if atomic.LoadInt32(&answersTimeouts) >= answersMaxTimeouts {
+		return "SKIPPED too many timeouts"
+	}
+	line := runImplOnce(c, answersTimeout)
+	if strings.HasSuffix(line, "end timeout") {
+		line = runImplOnce(c, 4*answersTimeout)
+		if strings.HasSuffix(line, "end timeout") {
+			atomic.AddInt32(&answersTimeouts, 1)
+		}
+	}
+	return line
+}
+
+func runImplOnce(c answersCase, answersTimeout time.Duration) string {
 	i, _ := newInterp("")
 	// The Go encoding of every list cell chain of the case is drawn from the payload (half of the
 	// cases keep the reader's encodings): the abstract program is the same, so are the answers.
